@@ -1822,6 +1822,14 @@ class Merge3Merger:
             sequence_matcher=patiencediff.PatienceSequenceMatcher,
         )
         start_marker = b"!START OF MERGE CONFLICT!" + b"I HOPE THIS IS UNIQUE"
+        # The marker is only a device to recognise the conflict start lines
+        # emitted by merge3: make sure no input line can be mistaken for one.
+        while any(
+            line.startswith(start_marker)
+            for lines in (base_lines, other_lines, this_lines)
+            for line in lines
+        ):
+            start_marker += b"!"
         base_marker = b"|" * 7 if self.show_base is True else None
 
         def iter_merge3(retval):
@@ -1841,7 +1849,7 @@ class Merge3Merger:
             for line in lines:
                 if line.startswith(start_marker):
                     retval["text_conflicts"] = True
-                    yield line.replace(start_marker, b"<" * 7)
+                    yield b"<" * 7 + line[len(start_marker) :]
                 else:
                     yield line
 
